@@ -467,6 +467,19 @@ def gen_cases(tables, r, tier):
                     c['focus'] = [row['owner'], row['dest']]
                     c['_fill'] = ('two-keys', row, i, j, where)
                     cases.append(c)
+    # ---- G. every sub-command (aliases included) sees the configuration: a few fixed combinations each
+    for command in names:
+        for (owner, dest, combo) in [('', 'concurrent', {'prof': 0, 'dflt': 0}), ('', 'password', {'env': 0, 'dflt': 0}),
+                                     ('vfy', 'token', {'env': 0, 'prof': 0}), ('', 'cache_directory', {'cli': 1, 'prof': 0}),
+                                     ('', 'repository', {'env': 0, 'dflt': 0}), ('vfy', 'port', {'cli': 0, 'env': 0})]:
+            row = tables.by_key.get((owner, dest))
+            if row is None:
+                continue
+            c = new_case('precedence', command, 'vfy', r.choice(['explicit', 'default-location']))
+            c['focus'] = [owner, dest]
+            c['combo'] = combo
+            c['_fill'] = ('combo', row, combo, {s: 'int' for s in combo} if owner else None)
+            cases.append(c)
     # ---- F. background: several options set at once, file ignored / default location / unknown keys / decoy profile
     n_bg = 60 if quick else 1200
     for _ in range(n_bg):
@@ -580,7 +593,7 @@ def materialise(case, tables, cdir):
             else:
                 cli_words += [flag]
         for vi, raw in srcs.get('env', []):
-            env[row['env']['var']] = raw
+            env[ref.env_name(row['owner'], row['dest']) or row['env']['var']] = raw
         for vi, raw in srcs.get('prof', []):
             prof[row['file'][vi]['key']] = raw
         for vi, raw in srcs.get('dflt', []):
